@@ -1283,6 +1283,7 @@ class Ledger(object):
         self.sites3 = set(k[:3] for k in sites) if sites is not None else set()
         self.site_use = collections.Counter()
         self.rows = []
+        self.lower = []                      # internal functions: polynomials over scalar parameters that every call must keep >= 0
         unsigned = set()
         for p in func.params:
             if is_unsigned_ty((p.ty or "").replace("*", "").strip()):
@@ -1380,10 +1381,21 @@ class Ledger(object):
             row["cls"], row["why"], row["site"] = "PRECONDITION", reason, site
             self.site_use[site] += 1
             return row
-        if ext is None and lo_ok is not None and not self.ext.exported(self.func) and any(p.name == a.arr for p in self.func.params):
-            row["cls"] = "CALLER"
-            row["why"] = "upper bound is checked at every call site against the requirement summary"
-            return row
+        if ext is None and not self.ext.exported(self.func) and any(p.name == a.arr for p in self.func.params):
+            if lo_ok is not None:
+                row["cls"] = "CALLER"
+                row["why"] = "upper bound is checked at every call site against the requirement summary"
+                return row
+            # lower end too: when the smallest index is a polynomial in the function's own scalar parameters, 'that polynomial >= 0'
+            # becomes an obligation of every call site
+            q = eliminate_ivs(a.idx, a.ranges, self.prover, a.facts)
+            scal = set(p.name for p in self.func.params if not ("*" in (p.ty or "") or "[" in (p.ty or "")))
+            if q is not None and all((not isinstance(x, tuple)) and x in scal for x in q.atoms()):
+                if not any(q.key() == q2.key() for q2, t2 in self.lower):
+                    self.lower.append((q, "%s >= 0 (%s)" % (show_poly(q), a.text)))
+                row["cls"] = "CALLER"
+                row["why"] = "both ends are checked at every call site (index >= 0 as the obligation %s >= 0)" % show_poly(q)
+                return row
         side = []
         if lo_ok is None:
             side.append("index >= 0")
@@ -1527,6 +1539,36 @@ class Ledger(object):
                         row["cls"] = "UNDECIDED"
                         row["why"] = "cannot show that argument %s of %s is >= %d as the callee assumes" % (pn, call.name, lb)
                 self.rows.append(row)
+            for q, qtext in info.get("lower") or []:
+                a = Acc()
+                a.canon = self.walk.canon
+                a.func, a.arr, a.var, a.text, a.rw, a.line = self.func.name, "(lower)", None, "%s(...) needs %s" % (call.name, qtext), "r", call.line
+                a.ranges, a.facts, a.stmt, a.length, a.kind, a.callee, a.cparam = ranges, facts, estr(call), Poly.const(1), "domain", call.name, qtext
+                a.idx = None
+                row = dict(acc=a, key=a.show_key(), extent=None, extent_src="", cls=None, why="", used=[], site=None)
+                if all(x in sub for x in q.atoms()):
+                    qs = q.subs({k: v2 for k, v2 in sub.items()})
+                    ok = self.try_prove(qs, a, facts)
+                    if ok is not None:
+                        row["cls"] = "GUARDED" if any(f.origin == "cond" for f in ok) else "PROVEN"
+                        row["used"] = ok
+                if row["cls"] is None:
+                    reason, site = self.in_table(a)
+                    if reason:
+                        row["cls"], row["why"], row["site"] = "PRECONDITION", reason, site
+                        self.site_use[site] += 1
+                    else:
+                        row["cls"] = "UNDECIDED"
+                        row["why"] = "cannot show %s for the arguments of this call, as the callee's subscripts assume" % qtext
+                        if all(x in sub for x in q.atoms()):
+                            a.idx = q.subs({k: v2 for k, v2 in sub.items()})
+                            w = sample_violation(a, None, self.prover, None)
+                            a.idx = None
+                            if w is not None:
+                                row["cls"] = "VIOLATION"
+                                row["why"] = "the callee subscripts with %s, which is negative for admissible values: %s" % (qtext.split(" >= ")[0], w)
+                                row["witness"] = w
+                self.rows.append(row)
             for i, pn in enumerate(params):
                 if not info["is_ptr"][i] or i >= len(call.a):
                     continue
@@ -1653,5 +1695,46 @@ def run_all(tus, ext, table=None, domains=None, funcs=None, trusted=None, sites=
         if not ext.exported(f):
             req[n] = dict(params=[p.name for p in f.params],
                           is_ptr=[("*" in (p.ty or "")) or ("[" in (p.ty or "")) for p in f.params],
-                          req=L.requirement_summary(), domain=domains.get(n) or {})
+                          req=L.requirement_summary(), domain=domains.get(n) or {}, lower=list(L.lower))
+    # context-sensitive second pass: an internal helper whose accesses cannot be decided on their own (its index comes from data or
+    # extents that only its callers know) is analysed inside each caller, with its body in place of the call statement.  When every
+    # call site could be treated like that, the helper's own undecided rows are answered by the callers' ledgers.
+    needs = set()
+    for _round in range(3):
+        more = set(n for n, L in out.items() if not ext.exported(byname[n]) and cfront.inlinable(byname[n]) is None
+                   and any(r["cls"] == "UNDECIDED" for r in L.rows))
+        # ... and a helper whose summarised need cannot be shown at some call site (the summary forgets the caller's context)
+        for n, L in out.items():
+            for r in L.rows:
+                g = getattr(r["acc"], "callee", None)
+                if r["cls"] == "UNDECIDED" and g in byname and not ext.exported(byname[g]) and cfront.inlinable(byname[g]) is None:
+                    more.add(g)
+        more -= needs
+        if not more:
+            break
+        needs |= more
+        still_called = set()
+        callers = collections.defaultdict(int)
+        for n in order:
+            f = byname[n]
+            if n not in out:
+                continue
+            hit = calls[n] & needs
+            if not hit:
+                continue
+            nf, done, kept = cfront.inline_calls(f, byname, which=needs, depth=3)
+            still_called |= (kept & needs)
+            for g in done:
+                callers[g] += 1
+            L = Ledger(nf, tus, ext, table=table, requirements=req, domain=domains.get(n), trusted=trusted, sites=sites)
+            L.run()
+            L.inlined = sorted(done)
+            out[n] = L
+        for g in needs:
+            if g in still_called or not callers.get(g):
+                continue
+            for r in out[g].rows:
+                if r["cls"] == "UNDECIDED":
+                    r["cls"] = "CONTEXT"
+                    r["why"] = "decided inside each of its %d caller(s), with this function's body in place of the call" % callers[g]
     return out
